@@ -164,3 +164,74 @@ pub fn by_key(rs: &ResultSet, key_cols: &[usize]) -> BTreeMap<Vec<String>, Vec<C
     }
     m
 }
+
+use crate::pipeline::{self, CompileError, Compiled};
+
+/// Compile the scenario; anything but an accepted query ends the run as a (counted) skip.
+pub fn compile_or_skip(sc: &Scenario, ex: &mut Exec) -> Result<Compiled, Verdict> {
+    match pipeline::compile(sc) {
+        Ok(c) => Ok(c),
+        Err(CompileError::Refused(_)) => Err(Verdict::Skip("refused".into())),
+        Err(CompileError::Parse(e)) | Err(CompileError::Relation(e)) => {
+            ex.log.push(format!("rejected {}", e.lines().next().unwrap_or("")));
+            Err(Verdict::Skip("rejected".into()))
+        }
+        Err(CompileError::Panic(p)) => {
+            ex.stats.probe("compile_panic");
+            ex.log.push(format!("panic {}", p.lines().next().unwrap_or("")));
+            Err(Verdict::Skip("compile_panic".into()))
+        }
+    }
+}
+
+/// Coarse shape: privacy-unit kind, FROM shape, key shape, aggregate set.
+pub fn coarse_shape(sc: &Scenario, extra: &str) -> String {
+    format!(
+        "{}|{}",
+        sc.tags
+            .iter()
+            .filter(|t| t.starts_with("pu:") || t.starts_with("from:") || t.starts_with("keys:") || t.starts_with("aggs:") || *t == "synthetic" || *t == "plain")
+            .cloned()
+            .collect::<Vec<_>>()
+            .join(";"),
+        extra
+    )
+}
+
+/// Minimal shape: privacy-unit kind and key shape only.
+pub fn mini_shape(sc: &Scenario, extra: &str) -> String {
+    format!(
+        "{}|{}",
+        sc.tags.iter().filter(|t| t.starts_with("pu:") || t.starts_with("keys:") || *t == "synthetic").cloned().collect::<Vec<_>>().join(";"),
+        extra
+    )
+}
+
+pub fn shape_of(sc: &Scenario, extra: &str) -> String {
+    format!(
+        "{}|{}",
+        sc.tags
+            .iter()
+            .filter(|t| {
+                t.starts_with("pu:")
+                    || t.starts_with("from:")
+                    || t.starts_with("keys:")
+                    || t.starts_with("aggs:")
+                    || *t == "having"
+                    || *t == "outer"
+                    || *t == "where"
+                    || *t == "synthetic"
+                    || *t == "plain"
+                    || t.starts_with("hist:")
+            })
+            .cloned()
+            .collect::<Vec<_>>()
+            .join(";"),
+        extra
+    )
+}
+
+pub fn short(e: &str) -> String {
+    let s: String = e.chars().take(60).collect();
+    s.replace(|c: char| c.is_ascii_digit(), "#")
+}
